@@ -385,3 +385,14 @@ Lemma map_ss_parse_total_l isp s : total (map_ss_parse isp s). Proof. apply safe
 Lemma mss_parse_total_l isp s : total (mss_parse isp s). Proof. apply safe_total, mss_parse_safe. Qed.
 Lemma parse_string_total_l isp t s : total (parse_string isp true true t s).
 Proof. apply safe_total, parse_string_safe. Qed.
+
+(* Observation (candidate finding, see notes/C15.md): through parse.String's
+   generic slice path a blank *after* an unquoted element stays in the token
+   (blank is an identifier rune of the custom IsIdentRune), so integer
+   elements do not tolerate trailing blanks there, while leading blanks are
+   skipped; the integral slice parsers trim both sides (C15 int_accepts_go_forms). *)
+Example typed_int_slice_trailing_blank :
+  class_of (parse_string (mk_print []) true true (TSlice (TInt IInt)) (s2r "1 ,2")) = CErr /\
+  parse_string (mk_print []) true true (TSlice (TInt IInt)) (s2r "1, 2") = Ok (VList [VInt 1; VInt 2]) /\
+  signed_slice IInt (s2r "1 ,2") = Ok [1; 2]%Z.
+Proof. repeat split; vm_compute; reflexivity. Qed.
